@@ -127,14 +127,25 @@ def make_server(tr, version):
             tr.ev.append('acc:%d:%d:w' % (tr.tid(), tr.oid(self)))
             return defaultdict.__missing__(self, k)
 
+    import weakref as _weakref
+
+    def audit_watches(db):
+        # the watcher registry of a database is shared by all connections
+        w = audit_dict(tr, defaultdict)(_weakref.WeakSet)
+        for k, v in db._watches.items():
+            defaultdict.__setitem__(w, k, v)
+        db._watches = w
+
     def new_db():
         db = orig()
         db._dict = AD(db._dict)
+        audit_watches(db)
         db.condition = threading.Condition(srv.lock)
         return db
     dbs = AuditDbs(new_db)
     for k, db in srv.dbs.items():
         db._dict = AD(db._dict)
+        audit_watches(db)
         db.condition = threading.Condition(srv.lock)
         defaultdict.__setitem__(dbs, k, db)
     srv.dbs = dbs
@@ -165,9 +176,14 @@ def programs(rng, nthreads, ncmds):
                 block = [[b'multi']] + [g.command(rng.choice(names[:28])) for _ in range(rng.randint(1, 3))] + [[b'exec']]
                 p.extend(block)
                 i += len(block)
-            elif rng.random() < 0.05:
+            elif rng.random() < 0.07:
                 p.append([b'watch', rng.choice(gen.POOLS['Kk'])])
                 i += 1
+                if rng.random() < 0.5:
+                    # every way of ending a watch: EXEC, DISCARD, UNWATCH, and the EXEC / DISCARD forms that are refused for their arity
+                    p.extend(rng.choice([[[b'multi'], [b'exec', b'extra']], [[b'multi'], [b'discard']], [[b'unwatch']], [[b'multi'], [b'exec']],
+                                         [[b'multi'], [b'discard', b'extra'], [b'discard']], [[b'exec', b'extra']]]))
+                    i += 2
             elif rng.random() < 0.08:
                 # a short-lived second connection that subscribes and is closed: its deferred clean-up runs in someone's next command
                 p.append(('side', [[rng.choice([b'subscribe', b'psubscribe']), rng.choice([b'ch1', b'c*'])]]))
